@@ -25,6 +25,53 @@ KIND_ALPHABET = [
 KIND_ALPHABET_NO_IGN = [k for k in KIND_ALPHABET if k != '\x00']
 
 
+def env_edge_cases():
+    r"""Small closed family around the opening and closing of environments:
+    every way of writing the name after \begin / \end (braced, bare token,
+    spaced bare token, bracketed, a command, nothing, half-open) for names
+    that are letters, digits, punctuation or empty.  ~1500 short strings;
+    deterministic."""
+    out = []
+    names = ['a', '1', '.', '', 'ab', 'a1']
+    def forms(kw, n):
+        return [kw + '{' + n + '}', kw + ' ' + n, kw + n, kw + '[' + n + ']', kw + '\\' + n,
+                kw, kw + '{' + n, kw + '{', kw + '}', kw + ' {' + n + '}', kw + '\n{' + n + '}',
+                kw + '{' + n + '}{' + n + '}']
+    for n in names:
+        for o in forms('\\begin', n)[:6] + forms('\\begin', n)[9:]:
+            for c in forms('\\end', n):
+                for body in ('', 'x'):
+                    for tail in ('', '}y'):
+                        out.append(o + body + c + tail)
+    seen, res = set(), []
+    for s in out:
+        if s not in seen:
+            seen.add(s)
+            res.append(s)
+    return res
+
+
+# characters that some notion of "white space" / "line end" / "ignorable"
+# (str.isspace, str.splitlines, string.whitespace, TeX's ^^M) covers but the
+# library's category table does not treat like ' ', '\n', NUL: a table edit
+# that moves one of them shows only on inputs containing it
+ODD_CHARS = ['\r', '\x0b', '\x0c', '\x1c', '\x1d', '\x1e', '\x1f', '\x85', '\xa0',
+             ' ', ' ', '　', '﻿', '\x01', '\x1b', '\x80', '\xad']
+
+
+def odd_char_cases():
+    """Every odd character at every token boundary of a few small documents,
+    alone, doubled and combined with LF (CR LF, LF CR).  Deterministic."""
+    skel = ['\\foo{}bar', '\\foo{}{b}', '\\foo{}[b]{c}', 'a{}b', '$x{}$', '\\item{}two', '% c{}d\n\\x',
+            '\\begin{a}{}x{}\\end{a}', '{}\\x', '\\x{}', 'a{}$b$', '\\\\{}x', '\\begin{itemize}\\item{}a\\item b{}\\end{itemize}']
+    out = []
+    for ch in ODD_CHARS:
+        for sk in skel:
+            for fill in (ch, ch + ch, ch + '\n', '\n' + ch, ' ' + ch, ch + ' '):
+                out.append(sk.replace('{}', fill))
+    return out
+
+
 def strings_upto(alphabet, maxlen, minlen=0):
     for n in range(minlen, maxlen + 1):
         for tup in itertools.product(alphabet, repeat=n):
